@@ -99,7 +99,7 @@ Definition c05_wit_p : prob := prun 1000 (empty_prob 1000 true) [NewCol (-1) 0 1
 Definition c05_wit : api :=
   {| a_p := c05_wit_p; a_basis := Some {| ba_c := ["0"%char]; ba_r := ["1"%char] |};
      a_cache := Some {| ca_val := -1; ca_x := [1]; ca_pi := [-1]; ca_rc := [0]; ca_slack := [0] |};
-     a_qstatus := 1; a_factorok := true |}.
+     a_qstatus := 1; a_factorok := true; a_rn := false |}.
 
 Theorem C05_delrows_nonzero_pi_drops_cache :
   Inv_dims c05_wit /\ Inv_cache 1000 c05_wit /\
@@ -121,7 +121,7 @@ Print Assumptions C05_delrows_nonzero_pi_drops_cache.
 (* the hypotheses of the positive theorems are satisfiable: the witness state itself, one solve step *)
 Example C05_example :
   let r := {| an_status := 1; an_basis := {| ba_c := ["0"%char]; ba_r := ["0"%char] |};
-              an_sol := {| ca_val := -1; ca_x := [1]; ca_pi := [-1]; ca_rc := [0]; ca_slack := [0] |} |} in
+              an_sol := {| ca_val := -1; ca_x := [1]; ca_pi := [-1]; ca_rc := [0]; ca_slack := [0] |}; an_rn := false |} in
   ops_dims 1000 (api_init c05_wit_p) [ASolve false r] /\ ops_ok 1000 (api_init c05_wit_p) [ASolve false r] /\
   acc_x (api_run 1000 (api_init c05_wit_p) [ASolve false r]) = Some [1].
 Proof.
@@ -138,7 +138,7 @@ Definition c05_keep_p : prob :=
      AddRow 4 "L" None None [(0%Z, 1); (1%Z, 1)]; AddRow 10 "L" None None [(0%Z, 1)]; AddRow 2 "L" None None [(0%Z, 1); (1%Z, -1)]].
 Definition c05_keep_ans : oans :=
   {| an_status := 1; an_basis := {| ba_c := ["1"; "1"]%char; ba_r := ["0"; "1"; "1"]%char |};
-     an_sol := {| ca_val := 4; ca_x := [3; 1]; ca_pi := [1; 0; 0]; ca_rc := [0; 0]; ca_slack := [0; 7; 0] |} |}.
+     an_sol := {| ca_val := 4; ca_x := [3; 1]; ca_pi := [1; 0; 0]; ca_rc := [0; 0]; ca_slack := [0; 7; 0] |}; an_rn := false |}.
 Definition c05_keep_ops : list aop := [ASolve false c05_keep_ans; AEdit (DelRows [2%Z; 1%Z])].
 
 Example C05_example_delrows_keeps_cache :
@@ -155,3 +155,54 @@ Proof.
   - apply Inv_dims_init.
   - intros c H. discriminate H.
 Qed.
+
+(* ===== Inv_factor (DESIGN 5/C05): the flag factorok and the basis matrix.  The LU factors are not modelled; the ghost value
+   `factored` (Store.ApiFactor.grun) remembers the basis matrix - entry lists of the basic structural columns, the basic
+   logicals with the senses of their rows, the number of rows - that the last factorization was computed from: at a solve
+   that really runs, and when ILLlib_addrows refactors the extended basis.  Tie: the Api correspondence of checks/C05.py
+   compares factorok (and whether the stored basis carries row norms, a_rn) with the library after every op. ===== *)
+From QSX Require Import Store.Matrix Store.ApiFactor.
+
+(* an edit other than adding rows never sets the flag; if it leaves the flag set it leaves the basis matrix unchanged -
+   i.e. every edit that changes a basic column, the sense of a row, or the dimension resets factorok *)
+Theorem C05_edit_keeps_factor : forall M s o t b,
+  Inv_dims s -> a_basis s = Some b -> snd (api_edit M s o) = ROk t -> is_addrows o = false ->
+  a_factorok (fst (api_edit M s o)) = true ->
+  a_factorok s = true /\ exists b', a_basis (fst (api_edit M s o)) = Some b' /\ bmatrix (a_p (fst (api_edit M s o))) b' = bmatrix (a_p s) b.
+Proof. exact edit_keeps_factor. Qed.
+Print Assumptions C05_edit_keeps_factor.
+
+(* the calls that always clear the flag *)
+Theorem C05_matrix_edits_reset_factor : forall M s o t,
+  snd (api_edit M s o) = ROk t ->
+  match o with
+  | DelRows _ | DelCols _ | ChgCoef _ _ _ | ChgRange _ _ | ChgSenses _ => True
+  | _ => False
+  end -> a_factorok (fst (api_edit M s o)) = false.
+Proof. exact matrix_edits_reset_factor. Qed.
+Print Assumptions C05_matrix_edits_reset_factor.
+
+(* QSnew_row / QSadd_row(s): as ILLlib_addrows leaves the flag - set exactly when a stored basis with row norms existed and the
+   flag was clear (the extended basis is refactored to compute the norms of the new rows) *)
+Theorem C05_addrows_factor : forall M s o t,
+  snd (api_edit M s o) = ROk t -> is_addrows o = true -> a_factorok (fst (api_edit M s o)) = addrows_factor s.
+Proof. exact addrows_factor_spec. Qed.
+Print Assumptions C05_addrows_factor.
+
+(* Inv_factor for all histories: whenever factorok is set, a stored basis exists and the ghost `factored` is the basis matrix
+   of the LP as it now stands *)
+Theorem C05_Inv_factor : forall M l sg, Inv_dims (fst sg) -> ops_dims M (fst sg) l -> Inv_factor sg -> Inv_factor (grun M sg l).
+Proof. exact grun_factor. Qed.
+Print Assumptions C05_Inv_factor.
+
+Theorem C05_Inv_factor_init : forall p, Inv_factor (api_init p, None).
+Proof. exact Inv_factor_init. Qed.
+Print Assumptions C05_Inv_factor_init.
+
+(* an add-row call that ends with the flag set: stored basis with row norms, flag clear before (e.g. after QSload_basis_and_row_norms) *)
+Example C05_example_addrow_refactors :
+  let s := {| a_p := c05_keep_p; a_basis := Some {| ba_c := ["1"; "1"]%char; ba_r := ["0"; "1"; "1"]%char |};
+              a_cache := None; a_qstatus := 100; a_factorok := false; a_rn := true |} in
+  let s' := fst (api_edit 1000 s (AddRow 9 "L" None None [(0%Z, 1)])) in
+  a_factorok s' = true /\ Inv_factor (gstep 1000 (s, None) (AEdit (AddRow 9 "L" None None [(0%Z, 1)]))).
+Proof. split; [vm_compute; reflexivity|]. intros _. vm_compute. eexists. split; reflexivity. Qed.
